@@ -1405,10 +1405,16 @@ Qed.
 
 (* without a target nothing reads the body first: the download streams it, a read error is the download's error *)
 Lemma download_streams_when_unread : forall cfg b r,
-  c_save cfg = true -> r_present r = true -> r_cached r = false ->
+  c_save cfg = true -> r_present r = true -> r_cached r = false -> r_err r = None ->
   handle_download cfg b r =
   match b_read b with Some e => Some e | None => match b_write b with Some e => Some e | None => b_close b end end.
-Proof. intros cfg b r S P C. unfold handle_download, copy_result. rewrite P, S, C. cbn. destruct (b_read b); reflexivity. Qed.
+Proof. intros cfg b r S P C E. unfold handle_download, copy_result. rewrite P, S, C, E. cbn. destruct (b_read b); reflexivity. Qed.
+
+(* an error recorded by an earlier stage that left no body is never replaced by the download *)
+Lemma download_keeps_earlier_error : forall cfg b r e,
+  r_cached r = false -> r_err r = Some e -> c_save cfg = true -> r_present r = true ->
+  handle_download cfg b r = None.
+Proof. intros cfg b r e C E S P. unfold handle_download. rewrite P, S, C, E. reflexivity. Qed.
 
 (* closing the output (SetOutputFile, or a writer that is an io.Closer): a copy that failed stays
    failed with ITS error whatever Close returns; a failed close fails an otherwise good download *)
@@ -1416,18 +1422,22 @@ Definition with_close (c : option err) (b : body_oracle) : body_oracle :=
   mkBody (b_read b) (b_tf b) (b_um_res b) (b_um_req b) (b_um_com b) (b_write b) c.
 
 Lemma copy_error_kept_for_every_close : forall cfg b r e c,
-  c_save cfg = true -> r_present r = true -> copy_result b r = Some e ->
+  c_save cfg = true -> r_present r = true -> (r_cached r = true \/ r_err r = None) -> copy_result b r = Some e ->
   handle_download cfg (with_close c b) r = Some e.
 Proof.
-  intros cfg b r e c S P C. unfold handle_download. rewrite P, S. cbn [negb orb].
+  intros cfg b r e c S P G C. unfold handle_download. rewrite P, S. cbn [negb orb].
+  assert (negb (r_cached r) && is_some (r_err r) = false) as G' by (destruct G as [G|G]; rewrite G; cbn; auto using andb_false_r).
+  rewrite G'.
   assert (copy_result (with_close c b) r = copy_result b r) as E by reflexivity. rewrite E, C. reflexivity.
 Qed.
 
 Lemma close_error_fails_download : forall cfg b r c,
-  c_save cfg = true -> r_present r = true -> copy_result b r = None ->
+  c_save cfg = true -> r_present r = true -> (r_cached r = true \/ r_err r = None) -> copy_result b r = None ->
   handle_download cfg (with_close c b) r = c.
 Proof.
-  intros cfg b r c S P C. unfold handle_download. rewrite P, S. cbn [negb orb].
+  intros cfg b r c S P G C. unfold handle_download. rewrite P, S. cbn [negb orb].
+  assert (negb (r_cached r) && is_some (r_err r) = false) as G' by (destruct G as [G|G]; rewrite G; cbn; auto using andb_false_r).
+  rewrite G'.
   assert (copy_result (with_close c b) r = copy_result b r) as E by reflexivity. rewrite E, C. reflexivity.
 Qed.
 
